@@ -270,6 +270,54 @@ static void part_buffer(int full)
     }
 }
 
+/* (f) continued buffer access: COObjRdBufStart/Cont and COObjWrBufStart/Cont in chunks that run up to and beyond the object's end */
+static unsigned long NChunk;
+static void part_chunked(void)
+{
+    static const uint32_t sizes[] = { 1, 4, 5, 20, 255, 889, 1000 };
+    for (unsigned si = 0; si < sizeof sizes / sizeof sizes[0]; si++) {
+        uint32_t size = sizes[si];
+        for (int pat = 0; pat < 400; pat++) {
+            CO_OBJ obj[2];
+            CO_OBJ_DOM *dom = malloc(sizeof *dom); dom->Size = size; dom->Offset = rnd() % (size + 1); dom->Start = malloc(size);
+            CO_OBJ_STR *str = malloc(sizeof *str); str->Offset = rnd() % (size + 1); str->Start = malloc(size + 1);
+            uint8_t *model = malloc(size);
+            for (uint32_t i = 0; i < size; i++) { dom->Start[i] = model[i] = (uint8_t)(i * 13 + pat); str->Start[i] = (uint8_t)(1 + (i * 3 + pat) % 255); }
+            str->Start[size] = 0;
+            obj[0].Key = CO_KEY(0x2100, 0, CO_OBJ_____RW); obj[0].Type = CO_TDOMAIN; obj[0].Data = (CO_DATA)dom;
+            obj[1].Key = CO_KEY(0x2100, 1, CO_OBJ_____R_); obj[1].Type = CO_TSTRING; obj[1].Data = (CO_DATA)str;
+            int write = pat % 3 == 0, usestr = pat % 3 == 1;
+            uint32_t off = 0; int first = 1;
+            for (int c = 0; c < 12; c++) {
+                uint32_t len = (rnd() % 4 == 0) ? rnd() % (size + 9) : 1 + rnd() % 9;
+                if (c == 0 && pat % 5 == 0) len = 0;
+                uint32_t rem = size - off, moved = len < rem ? len : rem;
+                uint8_t *ub = malloc(len ? len : 1);
+                CO_ERR e;
+                if (write) {
+                    for (uint32_t i = 0; i < len; i++) ub[i] = (uint8_t)(rnd());
+                    e = first ? COObjWrBufStart(&obj[0], &Node, ub, len) : COObjWrBufCont(&obj[0], &Node, ub, len);
+                    for (uint32_t i = 0; i < moved; i++) model[off + i] = ub[i];
+                    if (e != CO_ERR_NONE || memcmp(dom->Start, model, size) != 0)
+                        VIOL(first ? "buffer/chunked/write-start" : "buffer/chunked/write-cont", "domain of %u bytes: chunk %d (%u bytes at offset %u) - object content differs from the reference (err %d)", size, c, len, off, (int)e);
+                } else {
+                    memset(ub, 0xEE, len ? len : 1);
+                    CO_OBJ *o = usestr ? &obj[1] : &obj[0];
+                    const uint8_t *src = usestr ? str->Start : dom->Start;
+                    e = first ? COObjRdBufStart(o, &Node, ub, len) : COObjRdBufCont(o, &Node, ub, len);
+                    int ok = e == CO_ERR_NONE;
+                    for (uint32_t i = 0; ok && i < moved; i++) if (ub[i] != src[off + i]) ok = 0;
+                    for (uint32_t i = moved; ok && i < len; i++) if (ub[i] != 0xEE) ok = 0;
+                    if (!ok) VIOL(first ? "buffer/chunked/read-start" : "buffer/chunked/read-cont", "%s of %u bytes: chunk %d (%u bytes at offset %u) delivered wrong bytes (err %d)", usestr ? "string" : "domain", size, c, len, off, (int)e);
+                }
+                off += moved; first = 0; NChunk++;
+                free(ub);
+            }
+            free(dom->Start); free(dom); free(str->Start); free(str); free(model);
+        }
+    }
+}
+
 int main(int argc, char **argv)
 {
     unsigned long seed = argc > 1 ? strtoul(argv[1], 0, 0) : 1;
@@ -279,15 +327,16 @@ int main(int argc, char **argv)
     Rng = 0x9E3779B97F4A7C15ull ^ (seed * 0x2545F4914F6CDD1Dull);
     memset(&Node, 0, sizeof Node); Node.NodeId = 1;
     setvbuf(stdout, NULL, _IOLBF, 0);
-    int parts = argc > 5 ? atoi(argv[5]) : 31;
+    int parts = argc > 5 ? atoi(argv[5]) : 63;
     if (parts & 1) { part_small();
         printf("stat small_scope_dictionaries %lu\nstat small_scope_lookups %lu\n", NDict, NLook); }
     if (parts & 2) part_random(ndicts);
     if (parts & 4) part_init();
     if (parts & 8) part_typed(n32);
     if (parts & 16) part_buffer(full);
-    printf("stat dictionaries %lu\nstat lookups %lu\nstat lookups_hit %lu\nstat lookups_miss %lu\nstat init_dictionaries %lu\nstat typed_cases %lu\nstat buffer_cases %lu\nstat violations %lu\n",
-           NDict, NLook, NHit, NMiss, NInitDict, NTyped, NBuf, NViol);
+    if (parts & 32) part_chunked();
+    printf("stat dictionaries %lu\nstat lookups %lu\nstat lookups_hit %lu\nstat lookups_miss %lu\nstat init_dictionaries %lu\nstat typed_cases %lu\nstat buffer_cases %lu\nstat chunked_cases %lu\nstat violations %lu\n",
+           NDict, NLook, NHit, NMiss, NInitDict, NTyped, NBuf, NChunk, NViol);
     printf("sample small-scope: all 256 subsets of an 8-key universe x 21 probe keys x 4 flag bytes, array of exactly n+1 entries\n");
     printf("sample typed: width x direct/referenced x plain/node-id-relative x node id {1,64,127} x all 8-bit, 16-bit values, boundary+random 32-bit\n");
     printf("done\n");
